@@ -11,7 +11,10 @@ GENERIC = "ocaml/common/driver.ml"
 TOOLS = {
     "lex": ("Extract/LexExtract.v", "lexmodel", "ocaml/lex/driver.ml"),
     "echo": ("Extract/EchoExtract.v", "model", GENERIC),
+    "overrides": ("Extract/OverridesExtract.v", "model", GENERIC),
+    "fold": ("Extract/FoldExtract.v", "model", GENERIC),
     "irinfo": ("Extract/IrInfoExtract.v", "model", GENERIC),
+    "irrun": ("Extract/IrRunExtract.v", "model", GENERIC),
 }
 
 
